@@ -64,6 +64,10 @@ func c08Scenarios(tier string) []*Scenario {
 			add(tr, "", RPC{Kind: "cs", Client: c, Handler: []string{"r*", "h:a", "s0", "t:b", "ret:okerr"}})
 		}
 		add(tr, "", RPC{Kind: "unary", Client: []string{"I"}, Handler: []string{"dec", "ret:okerr"}})
+		// one response, then a second one that cannot be sent (SendMsg fails), then the failure
+		for _, c := range [][]string{{"S0", "C", "R*", "R"}, {"S0", "C", "H", "R*", "T"}} {
+			add(tr, "", RPC{Kind: "cs", Client: c, Handler: []string{"r*", "s0", "sn", "ret:st:15"}})
+		}
 		// responses sent before the client has finished sending (in-process: full duplex)
 		if tr == "inproc" {
 			add(tr, "", RPC{Kind: "cs", Client: []string{"S0", "S1", "C", "R*", "R"}, Handler: []string{"r", "s0", "s1", "r*", "ret:ok"}})
